@@ -72,9 +72,20 @@ type world struct {
 	signer types.Signer
 	cfg    *vm.Config
 	yp     *params.YouParams
+	stk    *staking.Staking
+	used   int // cases run on this world
 }
 
 var theWorld *world
+
+// The shared trie database only grows (every digest commits a copy into it), so the chain
+// context is rebuilt from genesis now and then.
+var casesPerWorld = 200
+
+func (w *world) close() {
+	kit.Guard(func() { w.stk.Stop() })
+	kit.Guard(func() { w.chain.Stop() })
+}
 
 func addrN(tag string) common.Address {
 	return common.BytesToAddress(model.Keccak256([]byte("c17-addr/" + tag))[12:])
@@ -167,7 +178,7 @@ func buildWorld(seed int64) (*world, error) {
 	if err := s.Start(chain, eng); err != nil {
 		return nil, err
 	}
-	w.chain, w.proc, w.gen = chain, chain.Processor(), chain.Genesis()
+	w.chain, w.proc, w.gen, w.stk = chain, chain.Processor(), chain.Genesis(), s
 	w.cfg, err = core.PrepareVMConfig(chain, 1, vm.LocalConfig{})
 	if err != nil {
 		return nil, err
@@ -747,7 +758,8 @@ func (e *env) genStaking(p *plan) {
 			Nonce: f.Nonce, CommissionRate: uint16(r.Intn(10001)), RiskObligation: uint16(r.Intn(10001)), AcceptDelegation: uint16(r.Intn(2)), Role: role}
 		f.Payload = e.stakingPayload(staking.ValidatorCreate, m)
 		p.kind, p.staked = "staking-create", val
-		p.tags = append(p.tags, tag, fmt.Sprint("role=", role))
+		p.tags = append(p.tags, strings.Split(tag, ",")...)
+		p.tags = append(p.tags, fmt.Sprint("role=", role))
 		p.newVal = state.PubToAddress(pub)
 	case 2: // update
 		v := pickVal()
@@ -1035,9 +1047,12 @@ func (e *env) step(i int, p *plan) bool {
 			if p.replayOf != "" {
 				c.Count("replay_refused", 1)
 			}
-			if !reasons[msg] {
-				c.Violation("refusal-reason-false", fmt.Sprintf("step %d (%s): refused with %q but that condition does not hold (state nonce %d, tx nonce %d, balance %v, gas cost %v, pool %d, limit %d)", i, p.kind, msg, sn, f.Nonce, sb, cost, prePool, f.Limit), e.wit(msg))
+			if len(reasons) == 0 {
+				c.Violation("refused-without-reason", fmt.Sprintf("step %d (%s): refused with %q but none of the refusal conditions holds (state nonce %d, tx nonce %d, balance %v, gas cost %v, pool %d, limit %d)", i, p.kind, msg, sn, f.Nonce, sb, cost, prePool, f.Limit), e.wit(msg))
 				return false
+			}
+			if !reasons[msg] {
+				c.Count("refusal_label_differs", 1) // another refusal condition holds; the label is not part of the property
 			}
 			c.Count("out_refused", 1)
 			c.Count("refused_"+strings.ReplaceAll(msg, " ", "-"), 1)
@@ -1272,6 +1287,20 @@ func (e *env) step(i int, p *plan) bool {
 	// frame condition over the complete digest
 	postLive := mon.Live(st, e.uni, mon.Opts{Staking: true})
 	postFlushed := mon.Flushed(st)
+	// A pending staking record with a negative value cannot be RLP-encoded: StateDB.updateStakingTrie
+	// then aborts in the middle of its map-ordered loop and the staking root depends on Go's map
+	// iteration order. Not a C17 accounting matter, but it makes the digest this monitor relies on
+	// ill-defined, so it is reported under its own class and the case stops here.
+	for k, v := range postLive {
+		if strings.HasPrefix(k, "stakingrec/") && strings.HasPrefix(v, "-") {
+			roots := map[common.Hash]bool{}
+			for j := 0; j < 16; j++ {
+				_, _, sr := st.Copy().IntermediateRoot(true)
+				roots[sr] = true
+			}
+			return bad("negative-staking-record-nondeterministic-staking-root", "after this transaction the pending staking record %s has the negative value %s; rlp cannot encode it, updateStakingTrie aborts mid-loop, and 16 identical copies of the state computed %d distinct staking roots", k, v, len(roots))
+		}
+	}
 	trieKey := map[string]common.Address{}
 	for _, a := range e.uni.Addrs {
 		trieKey["t/acct/"+hex.EncodeToString(model.Keccak256(a[:])[:6])] = a
@@ -1389,7 +1418,7 @@ func runApply(c *kit.Ctx) {
 		return
 	}
 	c.End("")
-	n := c.N(1600, 200000)
+	n := c.N(1600, 40000)
 	for i := 0; i < n; i++ {
 		id := fmt.Sprintf("a%d", i)
 		if !c.Mine(i, id) {
@@ -1403,6 +1432,15 @@ func runApplyCase(c *kit.Ctx, id string) {
 	r := c.Rand(id)
 	nsteps := 12 + r.Intn(28)
 	c.Begin(id, map[string]interface{}{"steps": nsteps})
+	if theWorld.used++; theWorld.used > casesPerWorld {
+		w, err := buildWorld(c.Seed)
+		if err != nil {
+			c.EndInconclusive("cannot rebuild the chain context: " + err.Error())
+			return
+		}
+		theWorld.close()
+		theWorld = w
+	}
 	e := &env{c: c, r: r, w: theWorld}
 	if err := e.setup(); err != nil {
 		c.EndInconclusive("setup: " + err.Error())
